@@ -30,6 +30,9 @@ type StreamSc struct {
 	Truncate int       `json:"truncate"` // -1: whole stream; else number of bytes delivered before end of stream
 	Oversize *Oversize `json:"oversize,omitempty"`
 	Capacity int       `json:"capacity,omitempty"`
+	// Twin: a second, independent stream of the same process carries the decodable frames in reverse order to a
+	// receiver of its own at the same time (streams share nothing)
+	Twin bool `json:"twin,omitempty"`
 }
 
 func genStreamSc(g *simrt.Tape, tier string) any {
@@ -44,6 +47,7 @@ func genStreamSc(g *simrt.Tape, tier string) any {
 		}
 		sc.Frames = append(sc.Frames, hex.EncodeToString(f))
 	}
+	sc.Twin = g.Draw(4) == 0
 	sc.Chunk = []int{simnet.ChunkRandom, simnet.ChunkRandom, simnet.ChunkByte, simnet.ChunkMax}[g.Draw(4)]
 	sc.DataEOF = g.Draw(3) == 1
 	switch g.Draw(4) {
@@ -148,6 +152,38 @@ func execStream(x *X, scAny any) {
 		_ = a.Close()
 	}
 
+	// the twin stream
+	var twinFrames [][]byte
+	var twinRecs []recvRec
+	twinDone := !sc.Twin
+	var tb *simnet.Conn
+	if sc.Twin {
+		for i := len(frames) - 1; i >= 0; i-- {
+			if !undecodable(frames[i]) && (sc.Max <= 0 || len(frames[i]) <= sc.Max) {
+				twinFrames = append(twinFrames, frames[i])
+			}
+		}
+		var ta *simnet.Conn
+		ta, tb = simnet.Pipe(s, "tw", simnet.EP{}, simnet.EP{Chunk: sc.Chunk})
+		var all []byte
+		for _, f := range twinFrames {
+			all = append(all, f...)
+		}
+		ta.Inject(all)
+		_ = ta.Close()
+		s.Spawn("twin-receiver", func() {
+			st := ttlv.NewStream(tb, sc.Max)
+			for range twinFrames {
+				var v ttlv.Value
+				err := st.Recv(&v)
+				twinRecs = append(twinRecs, recvRec{err: err, val: v, bytesRead: tb.BytesRead})
+				if err != nil {
+					break
+				}
+			}
+			twinDone = true
+		})
+	}
 	var recs []recvRec
 	rxDone := false
 	s.Spawn("receiver", func() {
@@ -172,6 +208,38 @@ func execStream(x *X, scAny any) {
 		return
 	}
 
+	// ---- oracle of the twin stream: every frame, intact, exactly its bytes
+	if sc.Twin {
+		if !twinDone {
+			x.Reportf("C07.hang", "twin-receiver", "the receiver of the second stream has not returned at quiescence (%d Recv calls returned)", len(twinRecs))
+			return
+		}
+		off := 0
+		for i, f := range twinFrames {
+			if i >= len(twinRecs) || twinRecs[i].err != nil {
+				var err error
+				if i < len(twinRecs) {
+					err = twinRecs[i].err
+				}
+				x.Reportf("C07.message-lost", "second-stream", "second stream: message %d of %d not returned (%v)", i, len(twinFrames), err)
+				return
+			}
+			var ref ttlv.Value
+			want := f
+			if ttlv.UnmarshalTTLV(bytes.Clone(f), &ref) == nil {
+				want = ttlv.MarshalTTLV(ref)
+			}
+			if got := ttlv.MarshalTTLV(twinRecs[i].val); !bytes.Equal(got, want) {
+				x.Reportf("C07.wrong-message", "second-stream", "second stream: message %d differs from what was sent (%d vs %d bytes)", i, len(got), len(want))
+				return
+			}
+			off += len(f)
+			if twinRecs[i].bytesRead != off {
+				x.Reportf("C07.over-read", "second-stream", "second stream: after message %d the receiver has consumed %d bytes, the message ends at %d", i, twinRecs[i].bytesRead, off)
+				return
+			}
+		}
+	}
 	// ---- oracle
 	limit := func(frameLen int) string { // is a frame of this total length within the configured maximum?
 		if sc.Max <= 0 {
